@@ -90,3 +90,55 @@ CHECKS["C18"] = {
         {"name": "sm3-tt", "pkg": "sm3", "run": "TestVX_C18_SM3", "kind": "internal", "files": ["sm3/C18_int_test.go"]},
     ],
 }
+
+SM2P = ["sm2/common_pub_test.go"]
+CHECKS["C12"] = {
+    "level": "exploration",
+    "assumptions": ["sm2ref is the oracle for [d]G and the curve equation", "candidate streams with at most 3 rejected candidates"],
+    "parts": [
+        {"name": "keys", "pkg": "sm2", "run": "TestVX_C12", "public_files": SM2P + ["sm2/C12_pub_test.go"], "shards": 8},
+    ],
+}
+
+CHECKS["C13"] = {
+    "level": "exploration",
+    "assumptions": ["sm3ref/sm2ref are the oracles", "id lengths 0..8200 and a few larger ones; message lengths 0..200 (300 thorough)"],
+    "parts": [
+        {"name": "za-wrappers", "pkg": "sm2", "run": "TestVX_C13", "public_files": SM2P + ["sm2/C13_pub_test.go"], "shards": 16},
+    ],
+}
+
+CHECKS["C02"] = {
+    "level": "exploration",
+    "assumptions": ["sm2ref.Sign (textbook GM/T 0003.2 with the four rejection rules) is the oracle", "at most D rejected candidates per stream (D=2 quick, 3 thorough)"],
+    "parts": [
+        {"name": "sign-exact", "pkg": "sm2", "run": "TestVX_C02", "public_files": SM2P + ["sm2/C02_pub_test.go"], "shards": 16},
+    ],
+}
+
+CHECKS["C01"] = {
+    "level": "exploration",
+    "assumptions": ["public keys derived with sm2ref; shapes of r, s, t are solved for rather than sampled", "leading-zero-byte alphabets, not all 2^256 values"],
+    "parts": [
+        {"name": "sign-verify", "pkg": "sm2", "run": "TestVX_C01", "public_files": SM2P + ["sm2/C01_pub_test.go"], "shards": 16},
+    ],
+    "deadline": {"quick": 120, "thorough": 1500},
+}
+
+CHECKS["C03"] = {
+    "level": "exploration",
+    "assumptions": ["sm2ref.Verify (the seven conditions of GM/T 0003.2 7.1) is the oracle", "mutations are single-bit/length/range/solved classes of a small set of base signatures"],
+    "parts": [
+        {"name": "verify-exact", "pkg": "sm2", "run": "TestVX_C03", "public_files": SM2P + ["sm2/C01_pub_test.go", "sm2/C03_pub_test.go"], "shards": 16},
+    ],
+    "deadline": {"quick": 200, "thorough": 2400},
+}
+
+CHECKS["C19"] = {
+    "level": "fault_enumeration",
+    "assumptions": ["io.ReadFull's contract (an error is dropped when the same call completed the buffer) is part of the reference semantics",
+                    "failure positions: draw index 0..3, byte offsets {0,1,16,31,32}; <=2 non-failing deviations"],
+    "parts": [
+        {"name": "failing-rand", "pkg": "sm2", "run": "TestVX_C19", "public_files": SM2P + ["sm2/C19_pub_test.go"], "shards": 8},
+    ],
+}
